@@ -5,7 +5,6 @@
 //   proposition names a network variable; the result names the variable of every quantifier by its nesting
 //   depth (x, xx, xxx, ...).
 // ======================================================================================
-pub open spec fn xs(n: nat) -> Seq<char> { Seq::new(n, |i: int| 'x') }
 pub open spec fn well_scoped(t: STree, scope: ISet<Seq<char>>) -> bool decreases t {
     match t {
         STree::Term(SAtom::Var(x)) => scope.contains(x),
@@ -29,49 +28,6 @@ pub open spec fn rename_spec(t: STree, m: IMap<Seq<char>, Seq<char>>, depth: nat
             else { STree::Hyb(op, xs(depth + 1), d, Box::new(rename_spec(*c, m.insert(x, xs(depth + 1)), depth + 1))) },
     }
 }
-// view of the exec renaming map (keys / values as character sequences)
-pub open spec fn mview(m: Map<String, String>) -> IMap<Seq<char>, Seq<char>> {
-    IMap::new(|k: Seq<char>| exists|s: String| #[trigger] m.contains_key(s) && s@ == k,
-             |k: Seq<char>| m[choose|s: String| #[trigger] m.contains_key(s) && s@ == k]@)
-}
-pub proof fn lemma_mview_key(m: Map<String, String>, s: String)
-    requires m.contains_key(s)
-    ensures mview(m).contains_key(s@), mview(m)[s@] == m[s]@
-{
-    let s2 = choose|s2: String| #[trigger] m.contains_key(s2) && s2@ == s@;
-    axiom_string_ext(s, s2);
-}
-pub proof fn lemma_mview_insert(m: Map<String, String>, k: String, v: String)
-    ensures mview(m.insert(k, v)) =~= mview(m).insert(k@, v@)
-{
-    let m2 = m.insert(k, v);
-    assert forall|q: Seq<char>| mview(m2).contains_key(q) <==> mview(m).insert(k@, v@).contains_key(q) by {
-        if mview(m2).contains_key(q) {
-            let s = choose|s: String| #[trigger] m2.contains_key(s) && s@ == q;
-            if s != k { assert(m.contains_key(s)); }
-        }
-        if mview(m).contains_key(q) {
-            let s = choose|s: String| #[trigger] m.contains_key(s) && s@ == q;
-            assert(m2.contains_key(s));
-        }
-        if q == k@ { assert(m2.contains_key(k)); }
-    }
-    assert forall|q: Seq<char>| mview(m2).contains_key(q) implies mview(m2)[q] == mview(m).insert(k@, v@)[q] by {
-        let s = choose|s: String| #[trigger] m2.contains_key(s) && s@ == q;
-        lemma_mview_key(m2, s);
-        if q == k@ {
-            axiom_string_ext(s, k);
-        } else {
-            assert(s != k);
-            assert(m.contains_key(s));
-            lemma_mview_key(m, s);
-        }
-    }
-}
-pub proof fn lemma_mview_empty()
-    ensures mview(Map::<String, String>::empty()) =~= IMap::<Seq<char>, Seq<char>>::empty()
-{
-}
 pub proof fn lemma_rename_height(t: STree, m: IMap<Seq<char>, Seq<char>>, depth: nat)
     ensures s_height(rename_spec(t, m, depth)) == s_height(t)
     decreases t
@@ -89,20 +45,6 @@ pub open spec fn rename_ok(r: Result<HctlTreeNode, String>, orig: HctlTreeNode, 
     match r {
         Ok(t2) => well_scoped(view_tree(orig), m.dom()) && wf(t2) && view_tree(t2) == rename_spec(view_tree(orig), m, depth) && t2.height == orig.height,
         Err(_) => !well_scoped(view_tree(orig), m.dom()),
-    }
-}
-pub proof fn lemma_borrow_all(m: Map<String, String>)
-    ensures
-        forall|k: &str| #[trigger] contains_borrowed_key(m, k) <==> mview(m).contains_key(k@),
-        forall|k: &str, v: String| #[trigger] maps_borrowed_key_to_value(m, k, v) ==> mview(m).contains_key(k@) && mview(m)[k@] == v@,
-{
-    assert forall|k: &str| #[trigger] contains_borrowed_key(m, k) <==> mview(m).contains_key(k@) by {
-        axiom_str_borrow_contains(m, k);
-    }
-    assert forall|k: &str, v: String| #[trigger] maps_borrowed_key_to_value(m, k, v) implies mview(m).contains_key(k@) && mview(m)[k@] == v@ by {
-        axiom_str_borrow_maps(m, k, v);
-        let s = choose|s: String| #[trigger] m.contains_key(s) && s@ == k@ && m[s] == v;
-        lemma_mview_key(m, s);
     }
 }
 pub proof fn lemma_xs_push(n: nat)
